@@ -202,6 +202,7 @@ func runExplore(c exploreCase) (taken []int, trace []string, err error) {
 	defer w.Release()
 	s := newGateSched()
 	w.Agent.Before = func(op string, _ [12]byte) { s.gate("agent." + op) }
+	w.Agent.After = func(op string, _ [12]byte, _ error) { s.gate("agent." + op + ".ret") }
 	w.Conn.OnWrite = func([]byte) { s.gate("conn.write") }
 	w.Conn.OnClose = func() { s.gate("conn.close") }
 	w.Clock.OnNow = func() { s.gate("clock.now") }
@@ -452,6 +453,9 @@ func exploreAll(t *testing.T, rec *evid.Rec, prop string, budget int, only func(
 					continue
 				}
 				for v := 0; v < 2; v++ {
+					if v == 1 && !evid.Thorough() && a != "close" && b != "close" {
+						continue // quick tier: the WithNoConnClose/fallback variant only where Close takes part
+					}
 					idx++
 					if idx%nshards != shard {
 						continue
@@ -500,7 +504,7 @@ func TestC10_Interleavings(t *testing.T) {
 	rec := evid.For("C10")
 	c10Notes(rec)
 	exploreNotes(rec)
-	exploreAll(t, rec, "C10", evid.Pick(12, 400), nil)
+	exploreAll(t, rec, "C10", evid.Pick(30, 600), nil)
 }
 
 // TestC15_Interleavings explores the pairs that involve Close.
@@ -508,7 +512,7 @@ func TestC15_Interleavings(t *testing.T) {
 	rec := evid.For("C15")
 	c15Notes(rec)
 	exploreNotes(rec)
-	exploreAll(t, rec, "C15", evid.Pick(12, 400), func(a, b string) bool { return a == "close" || b == "close" })
+	exploreAll(t, rec, "C15", evid.Pick(30, 600), func(a, b string) bool { return a == "close" || b == "close" })
 }
 
 func replayExplore(t *testing.T, prop string) {
